@@ -43,7 +43,7 @@ use crate::proto::{Ctx, attrs};
 pub fn meta() -> Meta {
     Meta {
         level: "fault_enumeration",
-        rule: "round trip: every (kind in {bdd,bcdd,zbdd,mtbdd<i64>} x all 6 orders of 3 variables (tdd: 2 variables, both orders) x variable-name configuration (8) x root set (empty, every single function, all pairs of a 24-function set, 3 triples with a repeated and a constant root) x {ascii,binary} x {2.0,3.0} x {strict,lax} x root names {none, valid, to-be-sanitised}) is exported and re-imported three ways; thorough adds n=4 (4 orders, functions with unused variables). faults: for each of the valid files every proper prefix and every position x byte of the alphabet {0x00,\\n,space,0,9,-,.,A,B,0x7f,0xff} (thorough: all 256 bytes; binary node section always all 256 values on the first 64 node bytes) plus a few hand-made oversized-count headers. A round-trip case is non-trivial when at least one root has an inner node; a mutant is non-trivial when it differs from the original file (identical substitutions are skipped and not counted).",
+        rule: "round trip: every (kind in {bdd,bcdd,zbdd,mtbdd<i64>} x all 6 orders of 3 variables (tdd: 2 variables, both orders) x variable-name configuration (10, incl. names that equal a generated name only after sanitising) x root set (empty, every single function, all pairs of a 24-function set, 3 triples with a repeated and a constant root) x {ascii,binary} x {2.0,3.0} x {strict,lax} x root names {none, valid, to-be-sanitised}) is exported and re-imported three ways, and additionally through readers that deliver the file 1, 2, 3 and 5 bytes at a time; thorough adds n=4 (4 orders, functions with unused variables). faults: for each of the valid files every proper prefix and every position x byte of the alphabet {0x00,\\n,space,0,9,-,.,A,B,0x7f,0xff} (thorough: all 256 bytes; binary node section always all 256 values on the first 64 node bytes) plus a few hand-made oversized-count headers. A round-trip case is non-trivial when at least one root has an inner node; a mutant is non-trivial when it differs from the original file (identical substitutions are skipped and not counted).",
         assumptions: vec![
             "original diagrams are built through DiagramRules::reduce + then_insert and read back by the harness's own interpreter".into(),
             "the fresh-manager order is reconstructed from DumpHeader::{num_vars, support_vars, support_var_to_level} only (unused variables fill the remaining levels in ascending order)".into(),
@@ -209,6 +209,8 @@ trait K15: 'static {
     fn audit(m: &MRef<Self>, live: &[&Self::F], rc: bool) -> AuditInfo;
     fn export(m: &MRef<Self>, s: &ExportSettings, roots: &[&Self::F], names: Option<&[String]>) -> (Vec<u8>, io::Result<()>);
     fn import(m: &MRef<Self>, input: &mut &[u8], header: &DumpHeader, sv: &[u32]) -> io::Result<Vec<Self::F>>;
+    /// the same through any reader (used with readers that deliver the file in small pieces)
+    fn import_dyn(m: &MRef<Self>, input: &mut dyn io::BufRead, header: &DumpHeader, sv: &[u32]) -> io::Result<Vec<Self::F>>;
     fn reach(m: &MRef<Self>, roots: &[&Self::F]) -> usize;
     fn universe(n: u32) -> Vec<Tb>;
     fn pairset(n: u32) -> Vec<Tb>;
@@ -341,6 +343,9 @@ macro_rules! bool_kind {
                 do_export::<$f>(m, s, roots, names)
             }
             fn import(m: &MRef<Self>, input: &mut &[u8], header: &DumpHeader, sv: &[u32]) -> io::Result<Vec<$f>> {
+                m.with_manager_shared(|m| dddmp::import::<$f>(input, header, m, sv.iter().copied(), <$f as BooleanFunction>::not_edge_owned))
+            }
+            fn import_dyn(m: &MRef<Self>, input: &mut dyn io::BufRead, header: &DumpHeader, sv: &[u32]) -> io::Result<Vec<$f>> {
                 m.with_manager_shared(|m| dddmp::import::<$f>(input, header, m, sv.iter().copied(), <$f as BooleanFunction>::not_edge_owned))
             }
             fn reach(m: &MRef<Self>, roots: &[&$f]) -> usize {
@@ -480,6 +485,9 @@ impl K15 for KMtbdd {
     fn import(m: &MTBDDManagerRef<I64>, input: &mut &[u8], header: &DumpHeader, sv: &[u32]) -> io::Result<Vec<MtF>> {
         m.with_manager_shared(|m| dddmp::import::<MtF>(input, header, m, sv.iter().copied(), |_, e| Ok(e)))
     }
+    fn import_dyn(m: &MTBDDManagerRef<I64>, input: &mut dyn io::BufRead, header: &DumpHeader, sv: &[u32]) -> io::Result<Vec<MtF>> {
+        m.with_manager_shared(|m| dddmp::import::<MtF>(input, header, m, sv.iter().copied(), |_, e| Ok(e)))
+    }
     fn reach(m: &MTBDDManagerRef<I64>, roots: &[&MtF]) -> usize {
         m.with_manager_shared(|m| {
             let rs: Vec<_> = roots.iter().map(|f| RawRoot(f.as_edge(m))).collect();
@@ -576,6 +584,9 @@ impl K15 for KTdd {
     fn export(m: &TDDManagerRef, s: &ExportSettings, roots: &[&TDDFunction], names: Option<&[String]>) -> (Vec<u8>, io::Result<()>) {
         do_export::<TDDFunction>(m, s, roots, names)
     }
+    fn import_dyn(_m: &TDDManagerRef, _input: &mut dyn io::BufRead, _header: &DumpHeader, _sv: &[u32]) -> io::Result<Vec<TDDFunction>> {
+        Err(io::Error::new(io::ErrorKind::Unsupported, "dddmp::import cannot be instantiated for ternary nodes"))
+    }
     fn import(_m: &TDDManagerRef, _input: &mut &[u8], _header: &DumpHeader, _sv: &[u32]) -> io::Result<Vec<TDDFunction>> {
         // `dddmp::import::<TDDFunction>` does not compile (const assertion "binary mode is only
         // supported for binary nodes" in import_bin): the importer does not accept ternary nodes.
@@ -631,7 +642,7 @@ const ROOT_GOOD: [&str; 4] = ["r0", "a_b", "_f1", "f"];
 const ROOT_BAD: [&str; 7] = ["a", "b c", "", "x\ty", "_f0", "a_b", "a b"];
 
 /// variable-name configurations (first n entries are used; "" = unnamed)
-const VAR_CFGS: [(&str, [&str; 4]); 8] = [
+const VAR_CFGS: [(&str, [&str; 4]); 10] = [
     ("none", ["", "", "", ""]),
     ("all_valid", ["a", "_x0", "a_b", "d"]),
     ("all_sanitise", ["a", "b c", "x\ty", "d e"]),
@@ -640,6 +651,9 @@ const VAR_CFGS: [(&str, [&str; 4]); 8] = [
     ("part_underscore", ["_x0", "", "a", "q"]),
     ("part_collision", ["a_b", "", "a b", "z"]),
     ("part_prefix", ["__x2", "_a", "", ""]),
+    // names that look like generated ones only after sanitising
+    ("part_sanitised_prefix", ["a", "", " x1", "d"]),
+    ("part_sanitised_prefix2", ["\tx2", " q", "", "d"]),
 ];
 
 fn settings_list() -> Vec<(bool, bool, bool, u8)> {
@@ -708,10 +722,13 @@ fn expect_var_names(names: &[String], strict: bool) -> NamesExp {
             }
         }
     }
+    // the documentation counts the underscore prefix "over all present variable names" and states the
+    // purpose (uniqueness); where sanitising lengthens a prefix only validity + uniqueness are demanded
+    let lead_san = san.iter().map(|s| s.bytes().take_while(|&b| b == b'_').count()).max().unwrap_or(0);
     let vars = (0..n)
         .map(|i| {
             if names[i].is_empty() {
-                Some(format!("{}x{i}", "_".repeat(1 + lead)))
+                if lead_san != lead { None } else { Some(format!("{}x{i}", "_".repeat(1 + lead))) }
             } else if !replaced[i] {
                 Some(names[i].clone())
             } else if collision {
@@ -1076,6 +1093,27 @@ fn run_case<K: K15>(env: &Env<K>, c: &Case, deep_audit: bool) -> CaseOut {
                         out.v("same_manager_handle_differs", format!("root {i}: imported handle != exported handle (imported table {:?}, exported {:?}); file: {:?}", K::table(g).map(|t| tb_json(&t, K::BOOLEAN)), tb_json(&env.tabs[c.roots[i]], K::BOOLEAN), file_txt()));
                     }
                 }
+            }
+            // the same file delivered by a reader in pieces of 1, 2, 3 and 5 bytes (every position is a
+            // refill boundary for the first one): header and handles must be the same
+            for chunk in [1usize, 2, 3, 5] {
+                let mut rd = ChunkReader { data: &bytes[..], pos: 0, avail: 0, chunk };
+                let h2 = match DumpHeader::load(&mut rd) {
+                    Ok(h) => h,
+                    Err(e) => {
+                        out.v("chunked_reader_differs", format!("DumpHeader::load through a reader that delivers {chunk} byte(s) at a time: {e}; file: {:?}", file_txt()));
+                        continue;
+                    }
+                };
+                match K::import_dyn(&env.mref, &mut rd, &h2, &sv) {
+                    Err(e) => out.v("chunked_reader_differs", format!("import through a reader that delivers {chunk} byte(s) at a time rejects the exported file: {e}; file: {:?}", file_txt())),
+                    Ok(g2) => {
+                        if g2.len() != got.len() || g2.iter().zip(got.iter()).any(|(a, b)| a != b) {
+                            out.v("chunked_reader_differs", format!("import through a reader that delivers {chunk} byte(s) at a time returns other handles than the import from a slice; file: {:?}", file_txt()));
+                        }
+                    }
+                }
+                out.outcomes.push("import:chunked".into());
             }
             if deep_audit {
                 let mut live: Vec<&K::F> = env.fns.iter().collect();
@@ -1738,5 +1776,38 @@ pub fn run(ctx: &mut Ctx) {
         }
         "hand" => run_hand(ctx),
         p => panic!("bad shard {p}"),
+    }
+}
+
+/// a reader that hands out the data in pieces of at most `chunk` bytes (a partially consumed piece
+/// is offered again, like `BufReader`)
+struct ChunkReader<'a> {
+    data: &'a [u8],
+    pos: usize,
+    avail: usize,
+    chunk: usize,
+}
+
+impl io::Read for ChunkReader<'_> {
+    fn read(&mut self, buf: &mut [u8]) -> io::Result<usize> {
+        let src = io::BufRead::fill_buf(self)?;
+        let n = src.len().min(buf.len());
+        buf[..n].copy_from_slice(&src[..n]);
+        io::BufRead::consume(self, n);
+        Ok(n)
+    }
+}
+
+impl io::BufRead for ChunkReader<'_> {
+    fn fill_buf(&mut self) -> io::Result<&[u8]> {
+        if self.avail == 0 {
+            self.avail = self.chunk.min(self.data.len() - self.pos);
+        }
+        Ok(&self.data[self.pos..self.pos + self.avail])
+    }
+    fn consume(&mut self, n: usize) {
+        let n = n.min(self.avail);
+        self.pos += n;
+        self.avail -= n;
     }
 }
